@@ -42,6 +42,7 @@ ASSUMPTIONS = [
 ]
 FAULT_KINDS = ["same_name_other_instance", "fea_do_log_h",
                "caller_reuses_matrix_buffer", "derived_instance_object",
+               "concurrent_runs_on_one_algorithm_object",
                "create_returns_garbage", "algorithm_object_reused", "warm_start:full", "warm_start:wrapper", "via:for_fes",
                "via:from_starting_point",
                "cancel:before_first_move", "cancel:mid_run", "draw:i0",
@@ -256,6 +257,12 @@ def _generate(rng: random.Random, batch: dict) -> dict:
                 more.append({"start_perm": p2, "draws": d2,
                              "stop_after_polls": len(d2) // 2 + 1})
             doc["more_runs"] = more
+            if rng.random() < 0.4 and not batch.get("long"):
+                # the runs happen at the same time (threads sharing the
+                # algorithm object), interleaved as this schedule says
+                doc["concurrent"] = {"schedule": [
+                    rng.randrange(len(more) + 1)
+                    for _ in range(rng.choice([3, 10, 40]))]}
     else:
         if rng.random() < 0.25:
             doc["more_runs"] = [{"seed": rng.getrandbits(48)}
@@ -407,13 +414,105 @@ def execute(doc: dict) -> dict:
     return total
 
 
+class _Baton:
+    """Real threads, one of which runs at any time: at every yield point the
+    schedule of the scenario document says who continues."""
+
+    def __init__(self, n: int, schedule: list) -> None:
+        import threading
+        self.cv = threading.Condition()
+        self.n = n
+        self.turn = 0
+        self.alive = set(range(n))
+        self.sched = [int(v) % n for v in schedule]
+        self.pos = 0
+        self.switches = 0
+
+    def _wait_for(self, me: int) -> None:
+        while self.turn != me:
+            if not self.cv.wait(timeout=HARD_CAP_S):
+                raise RuntimeError("baton lost: harness bug")
+
+    def start(self, me: int) -> None:
+        with self.cv:
+            self._wait_for(me)
+
+    def yield_point(self, me: int) -> None:
+        with self.cv:
+            nxt = me
+            if self.pos < len(self.sched):
+                nxt = self.sched[self.pos]
+                self.pos += 1
+            if nxt not in self.alive:
+                nxt = me
+            if nxt != me:
+                self.switches += 1
+                self.turn = nxt
+                self.cv.notify_all()
+                self._wait_for(me)
+
+    def done(self, me: int) -> None:
+        with self.cv:
+            self.alive.discard(me)
+            if self.alive and self.turn == me:
+                self.turn = min(self.alive)
+            self.cv.notify_all()
+
+
+def _execute_concurrent(runs: list, shared: dict) -> list:
+    """The runs of one scenario as simultaneous solve() calls on ONE algorithm
+    object (caller threads sharing it); switches happen at the processes'
+    should_terminate() polls, as the schedule of the document says."""
+    import threading
+
+    import numpy as np
+    import moptipyapps.tsp.fea1p1_revn as fea_mod
+    baton = _Baton(len(runs), runs[0]["concurrent"]["schedule"])
+    shared["baton"] = baton
+    out: list = [None] * len(runs)
+    # one allocator seam for all of them (installed once, not per run)
+    shared["alloc"] = _GuardAlloc(np, 400_000)
+    old_np = fea_mod.np
+    fea_mod.np = shared["alloc"]
+
+    def body(i: int) -> None:
+        try:
+            baton.start(i)
+            out[i] = _execute_single({**runs[i], "_run_id": i}, shared)
+        except BaseException as exc:  # noqa: BLE001
+            out[i] = exc
+        finally:
+            baton.done(i)
+    threads = [threading.Thread(target=body, args=(i, ), daemon=True)
+               for i in range(len(runs))]
+    try:
+        for t in threads:
+            t.start()
+        for t in threads:
+            t.join(HARD_CAP_S)
+    finally:
+        fea_mod.np = old_np
+    for o in out:
+        if isinstance(o, BaseException):
+            raise o
+        if o is None:
+            raise RuntimeError("a concurrent run did not finish: harness bug")
+    core.bump(out[0]["faults"], "concurrent_runs_on_one_algorithm_object")
+    if baton.switches >= 2:
+        core.bump(out[0]["probes"], "thread_switches>=2")
+    return out
+
+
 def _execute_runs(doc: dict, name: str) -> dict:
     runs = [doc] + [{**{k: v for k, v in doc.items() if k != "more_runs"},
                      **r} for r in doc.get("more_runs", [])]
     shared: dict = {"name": name}
     total = None
+    pre = None
+    if doc.get("concurrent") and len(runs) >= 2 and doc["mode"] == "stub":
+        pre = _execute_concurrent(runs, shared)
     for ri, rdoc in enumerate(runs):
-        res = _execute_single(rdoc, shared)
+        res = pre[ri] if pre is not None else _execute_single(rdoc, shared)
         if total is None:
             total = res
         else:
@@ -493,7 +592,9 @@ def _execute_single(doc: dict, shared: dict) -> dict:
     space = Permutations.standard(n)
     maxd = max(max(r) for r in matrix)
     guard = min(400_000, 4 * maxd + 1024)
-    alloc = _GuardAlloc(np, guard)
+    alloc = shared.get("alloc") or _GuardAlloc(np, guard)
+    baton = shared.get("baton")
+    run_id = int(doc.get("_run_id", 0))
 
     state = {"pair": [], "cur": None, "cur_len": None, "handovers": 0,
              "polls": 0,
@@ -736,11 +837,14 @@ def _execute_single(doc: dict, shared: dict) -> dict:
 
             def should_terminate(self):
                 state["polls"] += 1
+                if baton is not None:
+                    baton.yield_point(run_id)
                 return state["polls"] > stop_after
 
         proc = SimProcess()
-        old_np = fea_mod.np
-        fea_mod.np = alloc
+        if baton is None:
+            old_np = fea_mod.np
+            fea_mod.np = alloc
         try:
             algo.solve(proc)
         except _Stop:
@@ -749,7 +853,8 @@ def _execute_single(doc: dict, shared: dict) -> dict:
             core.violation(res, "algorithm-raised",
                            f"{type(exc).__name__}: {exc}; matrix={matrix}")
         finally:
-            fea_mod.np = old_np
+            if baton is None:
+                fea_mod.np = old_np
         if stop_after == 0:
             core.bump(res["faults"], "cancel:before_first_move")
         elif stop_after * 2 < len(draws):
@@ -923,6 +1028,11 @@ def reductions(doc: dict):
             yield {**doc, "twin": cand}
     if doc.get("do_log_h"):
         yield {k: v for k, v in doc.items() if k != "do_log_h"}
+    if doc.get("concurrent"):
+        yield {k: v for k, v in doc.items() if k != "concurrent"}
+        sch = doc["concurrent"]["schedule"]
+        for cand in core.list_deletions(sch, 1):
+            yield {**doc, "concurrent": {"schedule": cand}}
     if doc.get("create_garbage") is not None:
         yield {k: v for k, v in doc.items() if k != "create_garbage"}
     if doc.get("more_runs"):
